@@ -401,6 +401,22 @@ def _call_vf(c, t, y, args, hist):
     raise HarnessError(f"backend {be}")
 
 
+_FORTRAN_COUNTER = 0
+LAST_FORTRAN_FILE = [None]
+
+
+def fortran_inexact_literals(path):
+    """numeric literals of default (single precision) kind in a generated Fortran routine that are not exactly
+    representable in float32 (listed finding F-18a)"""
+    import re
+    try:
+        src = open(path).read()
+    except OSError:
+        return []
+    lits = re.findall(r"(?<![\w.])(\d+\.\d*(?:[eE][-+]?\d+)?|\.\d+(?:[eE][-+]?\d+)?)(?![\w.]|d[-+]?\d)", src)
+    return [x for x in lits if float(np.float32(float(x))) != float(x)]
+
+
 def compile_vf(spec, backend="default", vectorize=False, inplace=True, float_precision="float64", step_size=1e-3,
                inputs=None, adaptive=None, circuit=None, style=None, func_name="pv_vf", solver=None, **kw):
     """Build fresh templates from the spec and call get_run_func.  Exceptions propagate to the caller."""
@@ -415,12 +431,22 @@ def compile_vf(spec, backend="default", vectorize=False, inplace=True, float_pre
         kwargs["adaptive"] = adaptive
     if solver is not None:
         kwargs["solver"] = solver
+    file_name = "pv_gen_" + func_name
+    if backend == "fortran":
+        # a compiled extension module cannot be re-loaded under the same name/path within one process (dlopen returns
+        # the library that is already mapped): every Fortran build of this harness gets its own file name
+        global _FORTRAN_COUNTER
+        _FORTRAN_COUNTER += 1
+        import os as _os
+        file_name = f"pv_gen_f{_os.getpid()}_{_FORTRAN_COUNTER}"
     with warnings.catch_warnings():
         warnings.simplefilter("ignore")
         func, args, names, svm = circuit.get_run_func(func_name, step_size=step_size, backend=backend,
                                                       vectorize=vectorize, in_place=False, clear=False,
                                                       verbose=False, float_precision=float_precision,
-                                                      inputs=inputs, file_name="pv_gen_" + func_name, **kwargs)
+                                                      inputs=inputs, file_name=file_name, **kwargs)
+    if backend == "fortran":
+        LAST_FORTRAN_FILE[0] = file_name + ".f90"
     dde = "hist" in names
     return Compiled(func, args, names, svm, backend=backend or "default", inplace=inplace, dde=dde)
 
@@ -432,6 +458,12 @@ def run_circuit(spec, T, dt, outputs, solver="euler", backend="default", vectori
         isolate.reset()
         circuit = build_circuit(spec)
     kwargs = dict(kw)
+    if backend == "fortran":
+        global _FORTRAN_COUNTER
+        _FORTRAN_COUNTER += 1
+        import os as _os
+        kwargs.setdefault("file_name", f"pv_gen_r{_os.getpid()}_{_FORTRAN_COUNTER}")
+        LAST_FORTRAN_FILE[0] = kwargs["file_name"] + ".f90"
     if dts is not None:
         kwargs["sampling_step_size"] = dts
     with warnings.catch_warnings():
